@@ -606,6 +606,19 @@ func (c *Context) Cbrt(d, x *Decimal) (Condition, error) {
 	ed := MakeErrDecimal(nc)
 	exp8 := 0
 
+	// The range reduction below takes one rounded multiplication per factor of
+	// eight. For an operand of very large or very small magnitude those are
+	// tens of thousands of roundings at the working precision, whose errors add
+	// up until the initial estimate is useless and the iteration does not
+	// converge. Take an exact power of 1000 out of the operand first: its cube
+	// root is a power of ten that only shifts the exponent of the result.
+	var exp1000 int32
+	if adj := int64(ax.Exponent) + ax.NumDigits() - 1; adj > 30 || adj < -30 {
+		exp1000 = int32(adj / 3)
+		ax.Exponent -= 3 * exp1000
+		z.Exponent = ax.Exponent
+	}
+
 	// See: Turkowski, Ken. Computing the cube root. technical report, Apple
 	// Computer, 1998.
 	// https://people.freebsd.org/~lstewart/references/apple_tr_kt32_cuberoot.pdf
@@ -663,6 +676,7 @@ func (c *Context) Cbrt(d, x *Decimal) (Condition, error) {
 	}
 
 	z0.Set(x)
+	z.Exponent += exp1000
 	// z is an approximation whose error can have either sign, so it must be
 	// rounded to nearest: a directed rounding mode would turn a z just above
 	// an exact root (2.0000000001 for 8) into the next number up (2.01).
